@@ -693,8 +693,104 @@ func widePools() (addrs, names []string) {
 	return addrs, names
 }
 
+// foldNames are names with letters whose lower-case forms differ although
+// Unicode case folding makes them equal (sigma and final sigma, s and long s,
+// k and the Kelvin sign, theta and the theta symbol).  "Case-insensitively" can
+// be read as comparison of lower-cased names (what the tree does) or as case
+// folding; histories over these names are therefore judged by the clauses
+// that hold under both readings, see runFoldStorage.
+var foldNames = []string{"σ.lan", "ς.lan", "Σ.lan", "s.lan", "ſ.lan", "S.lan", "k.lan", "\u212a.lan", "K.lan", "θ.lan", "ϑ.lan", "Θ.lan"}
+
+// runFoldStorage: short Add histories over foldNames.  Whatever the reading
+// of "case-insensitively", after every Add: ByName of a name exactly as it
+// was added answers with (at least) the addresses it was added for; ByAddr
+// lists, for every name added for the address, that name or one equal to it
+// under case folding; nothing is listed that was not added; no answer
+// contains the same value twice.
+func runFoldStorage(c *ctx) {
+	tp, rc := c.rc.Tape, c.rc
+	rc.Stats.Probe("fold-orbit-names")
+	s, err := hostsfile.NewDefaultStorage()
+	if err != nil {
+		rc.Fail("error", "NewDefaultStorage", err.Error())
+
+		return
+	}
+	nAddrs := tp.Range(1, 3)
+	added := map[netip.Addr][]string{}
+	nOps := tp.Range(1, 8)
+	// Few distinct orbits per history, so that members of one orbit meet.
+	base := 3 * tp.Choose(len(foldNames)/3)
+	for i := 0; i < nOps; i++ {
+		addr := netip.MustParseAddr(stAddrs[tp.Choose(nAddrs)])
+		var names []string
+		for nn := tp.Range(1, 3); nn > 0; nn-- {
+			if tp.Bool(1, 5) {
+				names = append(names, foldNames[tp.Choose(len(foldNames))])
+			} else {
+				names = append(names, foldNames[base+tp.Choose(3)])
+			}
+		}
+		s.Add(&hostsfile.Record{Addr: addr, Names: slices.Clone(names), Source: "src"})
+		added[addr] = append(added[addr], names...)
+		c.logf("Add(%s %q)", addr, names)
+		c.sig = kernel.HashBytes(c.sig, []byte(fmt.Sprint("F", addr, names)))
+		rc.Steps++
+
+		for a, ns := range added {
+			listed := s.ByAddr(a)
+			for j, x := range listed {
+				if !slices.Contains(ns, x) {
+					rc.Fail("by-addr", "DefaultStorage.ByAddr", fmt.Sprintf("ByAddr(%s) lists %q, which was never added for it (added: %q)", a, x, ns))
+
+					return
+				}
+				if slices.ContainsFunc(listed[:j], func(y string) bool { return strings.ToLower(y) == strings.ToLower(x) }) {
+					rc.Fail("by-addr", "DefaultStorage.ByAddr", fmt.Sprintf("ByAddr(%s) = %q lists one name twice", a, listed))
+
+					return
+				}
+			}
+			for _, n := range ns {
+				if !slices.ContainsFunc(listed, func(x string) bool { return strings.EqualFold(x, n) }) {
+					rc.Fail("by-addr", "DefaultStorage.ByAddr", fmt.Sprintf("ByAddr(%s) = %q lists neither %q, which was added for it, nor a name equal to it under case folding", a, listed, n))
+
+					return
+				}
+				got := s.ByName(n)
+				if !slices.Contains(got, a) {
+					rc.Fail("by-name", "DefaultStorage.ByName", fmt.Sprintf("ByName(%q) = %v lacks %s although a record with exactly that name was added for it", n, got, a))
+
+					return
+				}
+			}
+		}
+		for _, n := range foldNames {
+			got := s.ByName(n)
+			for j, a := range got {
+				if slices.Contains(got[:j], a) {
+					rc.Fail("by-name", "DefaultStorage.ByName", fmt.Sprintf("ByName(%q) = %v lists one address twice", n, got))
+
+					return
+				}
+				if !slices.ContainsFunc(added[a], func(x string) bool { return strings.EqualFold(x, n) }) {
+					rc.Fail("by-name", "DefaultStorage.ByName", fmt.Sprintf("ByName(%q) lists %s, for which no name equal to it under case folding was added (added: %q)", n, a, added[a]))
+
+					return
+				}
+			}
+		}
+	}
+	c.nonTriv = nOps >= 2
+}
+
 func runStorage(c *ctx) {
 	tp, rc := c.rc.Tape, c.rc
+	if tp.Bool(1, 16) {
+		runFoldStorage(c)
+
+		return
+	}
 	stAddrs, stNames := stAddrs, stNames
 	maxOps := 14
 	if tp.Bool(1, 8) {
